@@ -403,6 +403,10 @@ class RenderContext:
             # A block is part of the template it is rendered in. It sees the same
             # macros, cycles, counters and block stacks as the text around it.
             ctx.tag_namespace = self.tag_namespace
+            # And the loops it is rendered in, for `forloop.parentloop`. They count
+            # towards the loop iteration limit as they are, not as a carry.
+            ctx.loops = self.loops
+            ctx.loop_iteration_carry = self.loop_iteration_carry
         else:
             # An isolated scope sees global data and its own arguments, not the
             # arguments of an enclosing `render` or `call`.
